@@ -457,3 +457,19 @@ M('c17-merge-no-copy', 'C17', 'core.py', "    G = Q_list[0].copy()", "    G = Q_
 M('c18-prep-opt-reps-one', 'C18', 'grid.py', "    if reps is not None:", "    if reps is not None and reps > 1:")
 M('c20-sample-tt-truth-of-slice', ['C20', 'C14'], 'sample.py', "        if len(sh2) == 0:", "        if not sh2:")
 T('c20-twin-sample-tt-size-test', ['C20', 'C14'], 'sample.py', "        if len(sh2) == 0:", "        if np.size(sh2) == 0:")
+
+
+# ------------------------------------------------------------------ round j rules (history / rare branch)
+M('c01-grad-module-buffer', ['C09', 'C10'], 'act_one.py', None, None,
+  edits=[("def get_and_grad(Y, i, check_phi=False):", "_GRAD_BUF = {}\n\n\ndef get_and_grad(Y, i, check_phi=False):"),
+         ("    grad = [np.zeros(G.shape) for G in Y]", "    key = tuple(G.shape for G in Y)\n    if key not in _GRAD_BUF:\n        _GRAD_BUF[key] = [np.zeros(G.shape) for G in Y]\n    grad = _GRAD_BUF[key]")])
+M('c19-poly-memo-underkeyed', ['C09', 'C10'], 'tensors.py', None, None,
+  edits=[("    def _get(m, j):\n        return (m + shift[j])**power", "    terms = {}\n\n    def _get(m, j):\n        if n[j] not in terms:\n            terms[n[j]] = (np.arange(n[j]) + shift[j])**power\n        return terms[n[j]][m]")])
+M('c04-skip-rank-one', 'C04', 'transformation.py', "    r1, n1, r2 = Z[i].shape\n    G1 = teneva._reshape(Z[i], (r1 * n1, r2))\n    Q, R = np.linalg.qr(G1, mode='reduced')", "    r1, n1, r2 = Z[i].shape\n    if r2 == 1:\n        return Z\n    G1 = teneva._reshape(Z[i], (r1 * n1, r2))\n    Q, R = np.linalg.qr(G1, mode='reduced')")
+M('c08-swap-loop-extra-exit', 'C08', 'maxvol.py', "        if np.abs(B[i, j]) <= e:\n            break\n\n        I[j] = i", "        if np.abs(B[i, j]) <= e or i in I[:j]:\n            break\n\n        I[j] = i")
+T('c08-twin-swap-loop-flipped-test', 'C08', 'maxvol.py', "        if np.abs(B[i, j]) <= e:\n            break\n\n        I[j] = i", "        if not e < np.abs(B[i, j]):\n            break\n\n        I[j] = i")
+M('c20-cap-clobbered', 'C20', 'svd.py', None, None,
+  edits=[("        r1 = r if mode < d-1 else 1", "        r = r if mode < d-1 else 1"),
+         ("        if Y_curr.shape[1] > r1:\n            Y_curr, _ = matrix_skeleton(Y_curr, e, r1)\n        r1 = Y_curr.shape[1]\n\n        G = np.empty([r0, n, r1])", "        if Y_curr.shape[1] > r:\n            Y_curr, _ = matrix_skeleton(Y_curr, e, r)\n        r = Y_curr.shape[1]\n\n        G = np.empty([r0, n, r])")])
+T('c19-twin-poly-memo-full-key', ['C09', 'C10', 'C19'], 'tensors.py', None, None,
+  edits=[("    def _get(m, j):\n        return (m + shift[j])**power", "    terms = {}\n\n    def _get(m, j):\n        key = (n[j], shift[j])\n        if key not in terms:\n            terms[key] = (np.arange(n[j]) + shift[j])**power\n        return terms[key][m]")])
